@@ -609,3 +609,6 @@ def run(ctx):
     check_tick_body(ctx, sh)
     c02.check_suffix_slices(ctx, 8)
     c02.check_op_idx(ctx, 8)
+    # "fails with OOM in exactly the first tick its demand exceeds its allocation": the frozen container is ended by the pool's killer, which
+    # therefore has to run in every tick, after the containers ticked and before the ended ones are collected (C04#8)
+    pool.ob_phases(ctx, 5)
